@@ -6,7 +6,8 @@
    grammar, compile2, render), the empty source, and the render-level facts for
    raw text and comments.  NOT covered by these theorems (left to the
    differential run): text between/around tags (C03_conservation), the '\{{'
-   escape (C03_quote), and raw-block bodies (known finding F2). *)
+   escape (C03_quote), and raw-block bodies in general (a concrete instance with
+   leading whitespace kept is Proofs/TagFree.raw_block_keeps_leading_whitespace). *)
 From Coq Require Import List NArith Lia.
 From HB Require Import Peg.Grammar Tpl.Compile Rt.State Rt.Eval Rt.Render Proofs.TagFree.
 Import ListNotations.
